@@ -129,22 +129,26 @@ fn emit_stale(w: &mut NdWriter, id: String, text: &str, names: &[String], stats:
     // one stream per anchor name: a second document using several names would fail on the first unknown one
     // (the second document either only uses the name, or first defines an anchor of its own under another name: the stale name
     // must not resolve to that one either)
-    for (k, (name, own)) in used.iter().flat_map(|n| [(n, false), (n, true)]).enumerate() {
+    // `lead`: a document with an anchor of its own comes first, so that the document defining the name is not the first
+    // anchored one of the stream (tables sized or swept by what earlier documents needed)
+    for (k, (name, own, lead)) in used.iter().flat_map(|n| [(n, false, false), (n, true, false), (n, false, true)]).enumerate() {
         let second = if own { format!("[&zzfresh 9, *{name}]") } else { format!("[*{name}]") };
-        let stream = if text.trim_end().contains('\n') { format!("---\n{}\n--- {second}\n", text.trim_end()) } else { format!("--- {}\n--- {second}\n", text.trim_end()) };
+        let head = if lead { "--- &zzlead [0]\n" } else { "" };
+        let stream = if text.trim_end().contains('\n') { format!("{head}---\n{}\n--- {second}\n", text.trim_end()) } else { format!("{head}--- {}\n--- {second}\n", text.trim_end()) };
         let raw = if own {
             vec![AEv::new("SS", 0, "", "p", ""), AEv::new("S", 2, "9", "p", ""), AEv::new("AL", 1, "", "p", ""), AEv::new("SE", 0, "", "p", "")]
         } else {
             vec![AEv::new("SS", 0, "", "p", ""), AEv::new("AL", 1, "", "p", ""), AEv::new("SE", 0, "", "p", "")]
         };
         let s2 = stream.clone();
+        let at = if lead { 2 } else { 1 };
         let obs = match guarded(move || {
             let mut c = std::io::Cursor::new(s2.into_bytes());
             let items: Vec<Result<Tree, serde_saphyr::Error>> = serde_saphyr::read::<_, Tree>(&mut c).collect();
             items
         }) {
-            Ok(items) if items.len() >= 2 => match &items[1] { Ok(t) => t.0.clone(), Err(_) => N::err() },
-            // the first document failed or the stream ended early: nothing is claimed about the second
+            Ok(items) if items.len() > at => match &items[at] { Ok(t) => t.0.clone(), Err(_) => N::err() },
+            // an earlier document failed or the stream ended early: nothing is claimed about the last one
             Ok(_) => continue,
             Err(_) => N::err(),
         };
